@@ -562,8 +562,11 @@ class C02Order(Oracle):
                         lo, hi = min(mine), max(mine)
                         for oid, ost in records(w).items():
                             on = nodes.get(oid)
-                            if on is None or on is n or on.kind != "Call macro" or on.arg != n.arg:
+                            if on is None or on.kind != "Call macro" or on.arg != n.arg:
                                 continue
+                            # (the same call line counts too: a Watch that a re-arming Alarm registers once per activation
+                            # calls the macro from two interrupt instances at overlapping times)
+                            ost = [x for x in ost if not (on is n and x[3] == inst)]
                             ticks = [tk for (nm, tk, t, i2) in ost]
                             done = [tk for (nm, tk, t, i2) in ost if nm == "completed"]
                             if ticks and min(ticks) <= hi and (not done or max(done) >= lo):
